@@ -26,6 +26,7 @@ def run(pid, tier):
     S.stray_wake(chk, col, bindir, tier)
     S.directed_stray(chk, col, bindir, tier)
     S.panic_kinds(chk, col, bindir, tier)
+    S.closure_work(chk, col, bindir, tier)
     S.explore_handshake(chk, col, bindir, tier)
     S.drop_race(chk, col, bindir, tier)
     S.faults(chk, col, bindir, tier)
@@ -40,6 +41,7 @@ def run(pid, tier):
         S.stray_wake(chk, col, rb, "quick", release=True, tag="-release")
         S.directed_stray(chk, col, rb, "quick", release=True, tag="-release")
         S.panic_kinds(chk, col, rb, "quick", release=True, tag="-release")
+        S.closure_work(chk, col, rb, "quick", release=True, tag="-release")
         S.explore_handshake(chk, col, rb, "quick", release=True, tag="-release")
         S.drop_race(chk, col, rb, tier, release=True, tag="-release")
         S.faults(chk, col, rb, "quick", release=True, tag="-release")
